@@ -57,7 +57,15 @@ Pool == <<
   Field("dj",   TDisj(<<TString, TRef("p", "Other")>>, "", <<>>), TRUE),
   Field("in",   TInter(<<TRef("p", "Other"), TStruct(<<Field("y", TString, FALSE)>>)>>), FALSE),
   Field("sl",   TSlot("dataquery"), TRUE),
-  Field("rm",   TRef("zz", "Missing"), TRUE)
+  Field("rm",   TRef("zz", "Missing"), TRUE),
+  \* the same operator more than once: every constraint of the field is a constraint of the assignment
+  Field("rc2",  TScalarC("int64", VNil, <<Con("!=", VInt("22")), Con("!=", VInt("80"))>>), TRUE),
+  Field("rc3",  AsNullable(TScalarC("string", VNil, <<Con("minLength", VInt("8")), Con("maxLength", VInt("64")), Con("minLength", VInt("32")),
+                                                       Con("minLength", VInt("9"))>>)), FALSE),
+  \* an empty collection is a default too
+  Field("arre", WithDef(TArray(TString), [t |-> "[]interface {}", s |-> "[]"]), TRUE),
+  Field("mape", AsNullable(WithDef(TMap(TString, TString), [t |-> "map[string]interface {}", s |-> "{}"])), FALSE),
+  Field("rse",  WithDef(TRef("p", "Other"), [t |-> "map[string]interface {}", s |-> "{}"]), TRUE)
 >>
 NPool == Len(Pool)
 
